@@ -172,20 +172,38 @@ macro "life_ctac" hr:ident hl:ident : tactic => `(tactic| (
      | (have hcr := Life.cr $hl Tid.lis _ _ (by simp [getC, crOf, *]; rfl); simp_all; done))
   ))
 
+theorem life_iter_app {s : State} {p : Proc} {st : ISt} {prev nxt : Option Nat}
+    {l : Lbl} {s' : State} (hr : Reach s) (hl : Life s) (hpc : getC s Tid.app = .iter p st prev nxt)
+    (hs : (l, s') ∈ iterSucc s Tid.app p st prev nxt) : Life s' := by
+  unfold iterSucc at hs
+  simp only [getC] at hpc
+  split at hs
+  all_goals (try simp only [] at hs)
+  all_goals (repeat' (split at hs))
+  all_goals first
+    | (simp at hs; done)
+    | (simp at hs; crack_hyps
+       all_goals life_ctac hr hl)
+
+theorem life_iter_lis {s : State} {p : Proc} {st : ISt} {prev nxt : Option Nat}
+    {l : Lbl} {s' : State} (hr : Reach s) (hl : Life s) (hpc : getC s Tid.lis = .iter p st prev nxt)
+    (hs : (l, s') ∈ iterSucc s Tid.lis p st prev nxt) : Life s' := by
+  unfold iterSucc at hs
+  simp only [getC] at hpc
+  split at hs
+  all_goals (try simp only [] at hs)
+  all_goals (repeat' (split at hs))
+  all_goals first
+    | (simp at hs; done)
+    | (simp at hs; crack_hyps
+       all_goals life_ctac hr hl)
+
 theorem life_iter {s : State} {t : Tid} (ht : t = .app ∨ t = .lis) {p : Proc} {st : ISt} {prev nxt : Option Nat}
     {l : Lbl} {s' : State} (hr : Reach s) (hl : Life s) (hpc : getC s t = .iter p st prev nxt)
     (hs : (l, s') ∈ iterSucc s t p st prev nxt) : Life s' := by
-  unfold iterSucc at hs
   rcases ht with rfl | rfl
-  all_goals (
-    simp only [getC] at hpc
-    split at hs
-    all_goals (try simp only [] at hs)
-    all_goals (repeat' (split at hs))
-    all_goals first
-      | (simp at hs; done)
-      | (simp at hs; crack_hyps
-         all_goals life_ctac hr hl))
+  · exact life_iter_app hr hl hpc hs
+  · exact life_iter_lis hr hl hpc hs
 
 theorem life_body {s : State} {t : Tid} (ht : t = .app ∨ t = .lis) {p : Proc} {k c : Nat}
     {l : Lbl} {s' : State} (hr : Reach s) (hl : Life s) (hpc : getC s t = .body p k c)
